@@ -156,7 +156,8 @@ def model_env(r, sig, case):
         tv = case['args'].get('tau', {}); vv = case['args'].get('v', {})
         vtc = vv['mat'][0] if 'mat' in vv else None
         isc = isinstance(tv.get('num'), list)
-        env[('opaque', 'number_from_pyobject')] = ('num' not in tv) or vtc == 'i' or (vtc == 'd' and isc)
+        numeric = 'num' in tv or tv.get('obj') == 'int'          # (the "not a matrix at all" object of the grammar is a Python int: a perfectly good tau)
+        env[('opaque', 'number_from_pyobject')] = (not numeric) or vtc == 'i' or (vtc == 'd' and isc)
     return env
 
 def line_of(r, env):
@@ -344,7 +345,7 @@ DIMKW = ('m', 'n', 'k', 'nrhs', 'kl', 'ku', 'kd')
 
 def embed_probes(ctx, rng, build, prop):
     """Embedding invariance of every wrapper: a documented call on plain matrices and the same call with every array argument placed in a
-    larger sentinel-filled buffer (offset 3, leading dimension rows + 2, all dimensions explicit) must return the same numbers in the
+    larger sentinel-filled buffer (an offset - the same for every array, or a different one for each -, leading dimension rows + pad, all dimensions explicit) must return the same numbers in the
     embedded positions, must not raise, and must leave every sentinel untouched (a write outside the documented footprint but inside the
     buffer is invisible to guard pages)."""
     import cwrap2lean
@@ -379,7 +380,7 @@ def embed_probes(ctx, rng, build, prop):
                 dims = {k: int(fin[sig['cvar'][k]]) for k in DIMKW if k in sig['names'] and sig['fmt'][sig['names'].index(k)] == 'i'}
                 cid += 1; done += 1
                 c2 = {'kind': 'embed', 'id': cid, 'routine': name, 'args': {k: v for k, v in case['args'].items() if k not in dims}, 'dims': dims, 'emb': emb,
-                      'pad': rng.choice([1, 2, 3]), 'off': rng.choice([1, 2, 3, 5])}
+                      'pad': rng.choice([1, 2, 3]), 'off': rng.choice([1, 2, 3, 5]), 'distinct': cid % 3}          # 0: one offset for all arrays, 1 / 2: a different offset for each (ascending / descending by name)
                 res = w.run(c2)
                 if res.startswith('crash') or res == 'worker-died':
                     # as in lapack_probes: the vectorised kernels of the BLAS library read a little past the end of their operands (larger
